@@ -63,6 +63,26 @@ Position of the longest size: for every configuration x structured field x 2..6 
 size token is put in the FIRST record only / the LAST record only / one MIDDLE record only (['lpos', field, n,
 where]); every judged dump of every workload counts where the strictly longest size of each >= 2-record field sat
 (longest:* per dump, align:longest:* once every dumped line of the field passed the column check).
+
+Build routes (case['mode'] == 'route'): a paragraph "built from a list of records" is also built incrementally and
+indirectly - para[f] = [] followed by para[f].append / .extend / .insert(0, ..) / += per record; para.setdefault(f,
+[]).append(rec) per record from an absent field (the first record travels through the list setdefault RETURNS), also
+with a default that already holds records and with a default that must be ignored because the key is present;
+para.update({f: recs}) / update([(f, recs)]) / update(**{f: recs}); para.get(f).append; para[f] = para[f] + [rec];
+the list kept in a variable (lst = para[f] / para.get(f) / para.setdefault(f, [])) and appended to; the object made
+from a mapping (cls(m), cls(sequence=m), cls(Deb822Dict(m))) of plain fields, of record lists (refused by the
+unchanged tree: counted, then assigned) or of record TEXT (exposed as records by the unchanged tree); a field that is
+deleted and rebuilt, or reset to [] and refilled; para.update(<another parsed paragraph>); the very list object of
+another parsed paragraph handed over; records that are the library's OWN record objects taken out of another parsed
+paragraph (one by index, several by index, sliced, reversed, sorted, filtered, whole; the object itself, dict(r),
+r.copy(), Deb822Dict(r), dict(r.items())) mixed with caller-made records (dict in documented / reversed key order,
+OrderedDict, Deb822Dict, int sizes) in one list.  Between the steps the paragraph is READ (para[f], para.get(f),
+get with a default, len, bool, iteration with sub-field access, copies of the list, record reads, f in para, items /
+values / keys / len / repr / dict / == of the paragraph, get_as_string, str; reads of ABSENT fields) and sometimes
+DUMPED (judged like the final dump).  Steps of different fields run field after field or interleaved.  Every judged
+dump is the ordinary judgement (dump returns, width rule, re-parse = the model's records).  A caller-held list that
+is mutated AFTER it was assigned (lst = [..]; para[f] = lst; lst.append(..)) is driven on a throw-away object,
+counted (route:callerlist:*) and never judged.
 """
 import copy
 import io
@@ -117,6 +137,29 @@ RULE = ('One case = one paragraph of one class (Dsc, Changes, BuildInfo, PdiffIn
         'strictly shorter: unrelated lengths / all one shorter / all of length 1; longest 2..20 characters, so also 16, 17, 18 '
         'around the fixed width), parsed text and built object; every judged dump of every workload counts the position of the '
         'strictly longest size per >= 2-record field.  '
+        '(f) BUILD ROUTES: a built paragraph whose structured fields are NOT filled by assigning one finished list each: every '
+        'structured field of every configuration x each of 24 routes (enumerated; the other structured fields absent / some / all '
+        'present, each on a route of its own), plus paragraphs in which every field draws its route - para[f] = [] (also via update / '
+        'update(**kw) / update(pairs) / setdefault) then per record para[f].append / extend (list, generator, slice assignment) / '
+        'insert(0, ..) / += ; para.get(f).append; para.setdefault(f, []).append(rec) for each record starting from an ABSENT field, '
+        'the same with extend / += / insert / slice, with the returned list kept in a variable, with a default that already holds the '
+        'first record, with a default that must be ignored because the key is present by then, and setdefault(f, finished list); '
+        'update({f: records}) / update([(f, records)]) / update(**{f: records}); first record assigned then the others appended; '
+        'para[f] = para[f] + [rec]; the stored list kept in a variable (from para[f] / para.get(f)) and grown in place; a field that '
+        'held other records and was deleted (del / pop) and rebuilt, or reset to [] and refilled; the object constructed from a '
+        'mapping (cls(m), cls(sequence=m), cls(Deb822Dict(m))) of plain fields, of record lists, or of record text (single / '
+        'continuation / mixed layout) with appends behind it; para.update(another parsed paragraph of the class) with appends behind '
+        'it; the list object of another parsed paragraph handed over as it is.  Records are caller-made (dict in documented or '
+        'reversed key order, OrderedDict, Deb822Dict from a dict / from pairs / from reversed pairs, sizes str or int) or the '
+        'library\'s own record objects taken from 1..4 other parsed paragraphs of the same class or of a class with identical '
+        'sub-field names (any input form, any text layout, dumped first or not): the object itself, dict(r), r.copy(), Deb822Dict(r), '
+        'dict(r.items()); one by index, several by index, a slice, reversed, sorted by a column, filtered by a column, all - both '
+        'kinds mixed in one list.  Steps of different fields run field after field or interleaved; between them the paragraph is read '
+        '(para[f], get, get with default, len, bool, iteration with sub-field access, list copies / slices / sorted, record reads, '
+        'membership, items / values / keys / len / repr / dict() / == of the paragraph, get_as_string, str(), reads of absent fields) '
+        'and with probability 0.1 per step dumped; every such intermediate dump and the final dump are judged like any built '
+        'paragraph (dump returns, width rule, re-parse equals the model).  Release behaviour is set first, late, or left at its '
+        'default.  A route case is non-trivial by the same rule as a single-dump case, applied to its final dump.  '
         'A single-dump case is non-trivial when at least one structured field of the class is absent and at least one present '
         'field has >= 2 records; a history is non-trivial when it has >= 2 judged dumps and that condition held at one of them.')
 ASSUMPTIONS = [
@@ -161,6 +204,39 @@ ASSUMPTIONS = [
     'longest size sits; the counters only make sure first-only / last-only / middle-only x 2..6 records were dumped and column-checked',
     'histories: a mutation through the public API that raises is reported (history-mutation-raises/...): every mutation used is plain '
     'mapping/list/attribute use on values inside the domain, and size_field_behavior is only ever set to its two documented values',
+    'build routes: the paragraph is a MutableMapping (the class derives from collections.abc.MutableMapping), so setdefault(key, default) '
+    'returns the object that is stored under the key afterwards (the first record appended through the returned list must be in the '
+    'dump) and leaves a present key alone (a default given for a present key must not show up); update() takes a mapping, pairs, or '
+    'keyword arguments; get(key) / para[key] return THE stored list, exactly as the in-place-edit histories assume.  A list kept in a '
+    'variable is only used while no assignment to that field happened since it was obtained (para[f] = .., para[f] += .., update, '
+    'delete all end its use): whether an assignment stores the object given or a copy is the library\'s choice',
+    'build routes: a caller-held list mutated AFTER it was assigned (lst = [..]; para[f] = lst; lst.append(..)) is NOT judged.  It is '
+    'driven on a throw-away object and counted: the unchanged tree stores the caller\'s list (route:callerlist:paragraph-shows-the-'
+    'later-appends).  A scratch library that copies on assignment and whose setdefault returns the stored copy was run through the '
+    'whole workload and stayed silent (only that counter flips), so the workload does not depend on that choice.  Likewise the list '
+    'object of another paragraph handed over as it is (para2[f] = para1[f], para2.update(para1)) is never appended to through the '
+    'OTHER paragraph afterwards, and a field that received such a list by a plain assignment is not grown at all',
+    'build routes: a build step that raises is reported (build-step-raises/<step>/<exception>): every step is plain mapping / list use on '
+    'values inside the domain.  Exception: a CONSTRUCTOR that is given a mapping holding record lists or record text may refuse - the '
+    'statement speaks of paragraphs built from record lists, not of constructor arguments.  Established on the unchanged tree: record '
+    'lists in the mapping are refused with AttributeError by every class (counted route:ctor-records-in-mapping:refused:*; the object '
+    'is then made from the plain fields and the lists go in with update()), record text in the mapping is accepted and exposed as '
+    'records in all three layouts (counted route:ctor-text-in-mapping:*); if a tree accepts, the result is judged like any built '
+    'paragraph; if record text is accepted but not exposed as the records it spells, nothing is demanded and the records are assigned',
+    'build routes: reads must not raise and must not change anything (a read of an ABSENT structured field included: it must not create '
+    'the field - that would show as a phantom field in the dump).  get_as_string() / str() / an intermediate dump() are only used '
+    'while every present structured field holds >= 1 record: an empty record list is outside the domain (on the unchanged tree '
+    'PdiffIndex and Release(dak) raise ValueError when asked to dump one, Release(apt-ftparchive) and the others print an empty field)',
+    'build routes: records of the library\'s own making are taken from another parsed paragraph only after that paragraph was seen to '
+    'expose exactly the records written (otherwise the ordinary parse finding is reported); they are reused only under a field whose '
+    'documented sub-field names are identical (same class, PdiffIndex twins, Release <-> Dsc / Changes / BuildInfo checksum fields); '
+    'dict(r), r.copy(), Deb822Dict(r), dict(r.items()) of such a record are records with the same tokens; taking records out (reading, '
+    'copying, slicing, sorting) must leave the source paragraph exposing what it exposed before (re-checked at the end, except for a '
+    'source whose lists were handed over whole by update())',
+    'build routes: a caller-made record is a mapping from the documented sub-field names to tokens; the order in which the mapping holds '
+    'its keys is not part of the record (plain dict in documented or reversed order, OrderedDict, Deb822Dict all denote the same record)',
+    'build routes: an empty paragraph of the class made just before, and one made just after, the incrementally built one must show no '
+    'structured field (records given to one paragraph do not appear in another)',
 ]
 ANCHORS = ['debian.deb822:_multivalued.__init__',
            'debian.deb822:_multivalued.get_as_string',
@@ -1498,6 +1574,7 @@ def gen_mixed_paragraph(r, clsname, behavior):
 #   ['hold', key, field, access]    keep the list the access returns; later 'held' grows go through it
 #   ['read', key, field, how]       see ROUTE_READS_*; changes nothing in the model
 #   ['update-from', source index]   obj.update(<another parsed paragraph of the same class>)
+#   ['delete', key, field, 'del' | 'pop']
 #   ['callerlist', key, field, chunks before, chunks after]   lst = [..]; probe[key] = lst; lst.extend(..) on a
 #                                   THROW-AWAY object: counted, never judged
 #   ['dump', via]                   intermediate dump (judged)
@@ -1511,11 +1588,13 @@ def gen_mixed_paragraph(r, clsname, behavior):
 ROUTE_TEMPLATES = ('empty+append', 'empty+extend', 'empty+insert0', 'empty+iadd', 'empty+get.append', 'empty+held',
                    'setdefault.append', 'setdefault.extend', 'setdefault-held', 'setdefault-rec0', 'setdefault-put',
                    'update-mapping', 'update-pairs', 'update-kw', 'update-empty+append', 'first+grow', 'concat',
-                   'ctor-records', 'ctor-text', 'from-paragraph', 'foreign-list', 'setitem')
+                   'ctor-records', 'ctor-text', 'from-paragraph', 'foreign-list', 'rebuilt-after-delete',
+                   'reset-to-empty+append', 'setitem')
 ROUTE_RANDOM_MENU = ROUTE_TEMPLATES + ('empty+append', 'setdefault.append', 'setdefault-held', 'setdefault-rec0',
                                        'first+grow', 'empty+held')
 ROUTE_NEW_HOWS = ('mapping', 'kw', 'deb822dict')
-ROUTE_RECTYPES = ('dict', 'dict', 'dict', 'deb822dict', 'deb822dict', 'dict-rev', 'deb822dict-pairs', 'ordereddict')
+ROUTE_RECTYPES = ('dict', 'dict', 'dict', 'deb822dict', 'deb822dict', 'dict-rev', 'deb822dict-pairs', 'deb822dict-rev',
+                  'ordereddict')
 ROUTE_SRC_HOWS = ('same', 'same', 'dict', 'copy', 'deb822dict', 'items')
 ROUTE_READS_LIST = ('getitem', 'get', 'get-default', 'len', 'bool', 'iter', 'list-copy', 'contains')  # held as a list
 ROUTE_READS_NONEMPTY = ('rec-read', 'rec-read')                                                # ... with >= 1 record
@@ -1523,8 +1602,8 @@ ROUTE_READS_PRESENT = ('getitem', 'get', 'get-default', 'contains')             
 ROUTE_READS_ABSENT = ('getitem-absent', 'get', 'get-default', 'contains')                      # absent field
 ROUTE_READS_OBJECT = ('items', 'values', 'keys', 'len-obj', 'repr', 'dict', 'eq')              # whole paragraph
 ROUTE_READS_DUMPABLE = ('get_as_string', 'str')         # only when every present structured field has >= 1 record
-ROUTE_ENUM_REPS = {'quick': 3, 'thorough': 100}         # per (config, structured field, template)
-ROUTE_RANDOM = {'quick': 3600, 'thorough': 140000}      # random route paragraphs (every field its own route)
+ROUTE_ENUM_REPS = {'quick': 2, 'thorough': 100}         # per (config, structured field, template)
+ROUTE_RANDOM = {'quick': 2600, 'thorough': 140000}      # random route paragraphs (every field its own route)
 ROUTE_DECOY_SIZE = '9' * 21                             # size of a record that must never show up
 
 
@@ -1609,6 +1688,10 @@ def route_model(state, step, case, outcome=None):
             state['mixed'].discard(f2)
             if s['forms'][f2] == 'mixed':
                 state['mixed'].add(f2)
+    elif k == 'delete':
+        del recs[step[2]]
+        del form[step[2]]
+        state['mixed'].discard(step[2])
     elif k in ('plain', 'read', 'callerlist', 'dump'):
         pass
     else:
@@ -1633,7 +1716,7 @@ def step_tag(step):
         return 'grow:%s.%s' % (step[3] if isinstance(step[3], str) else 'setdefault', step[4])
     if k == 'hold':
         return 'hold:%s' % (step[3] if isinstance(step[3], str) else 'setdefault')
-    if k in ('read', 'plain'):
+    if k in ('read', 'plain', 'delete'):
         return '%s:%s' % (k, step[3])
     if k == 'new':
         return 'new:%s' % step[1]
@@ -1753,6 +1836,18 @@ def route_field_steps(r, f, names, units, template, list_form=True):
         return out
     if t == 'concat':
         return [put('setitem', units[:1])] + [grow(r.choice(['getitem', 'get']), 'concat', [u]) for u in units[1:]]
+    if t in ('rebuilt-after-delete', 'reset-to-empty+append'):
+        # the field first holds OTHER records (which must be gone afterwards), is deleted / reset to an empty
+        # list, and is then filled record by record
+        old = [['new', ['GONE', ROUTE_DECOY_SIZE] + ['GONE'] * (len(names) - 2), r.choice(['dict', 'deb822dict']), False]
+               for _ in range(r.choice([1, 2, 3]))]
+        out = [put(whole_how(), old)]
+        if t == 'rebuilt-after-delete':
+            out.append(['delete', key(), f, r.choice(['del', 'del', 'pop'])])
+            inner = r.choice(['setdefault.append', 'setdefault.append', 'empty+append', 'setdefault-rec0', 'first+grow'])
+            return out + route_field_steps(r, f, names, units, inner)
+        out.append(put(r.choice(['setitem', 'setitem', 'update-mapping', 'update-kw']), []))
+        return out + [grow(r.choice(['getitem', 'getitem', 'get', ['setdefault', []]]), 'append', [u]) for u in units]
     if t in ('ctor-records', 'ctor-text', 'from-paragraph'):
         # the field arrives with the 'new' / 'update-from' step; what is left here are appends behind it
         if not list_form:
@@ -1919,7 +2014,7 @@ def gen_route_case(r, clsname, behavior, present, want=None, inv_p=None):
         route_model(state, step, stub)
         if r.random() < 0.4:
             for _ in range(r.choice([1, 1, 2])):
-                out.append(gen_route_read(r, clsname, state, step[2] if step[0] in ('put', 'grow', 'hold') else None))
+                out.append(gen_route_read(r, clsname, state, step[2] if step[0] in ('put', 'grow', 'hold', 'delete') else None))
         if state['recs'] and route_dumpable(state) and r.random() < 0.1:
             out.append(['dump', r.choice(VIAS)])
     assert route_dumpable(state), (tmpl, out)
@@ -1970,7 +2065,9 @@ def setup(ctx):
         'position start / mid / end + one of whole / both-ends x {parsed text, built object}, %d filling(s) each'
         % (len(inv_chars(ctx.tier)), ' '.join(inv_name(c) for c in inv_chars(ctx.tier)), INV_REPS[ctx.tier]),
         'position of the strictly longest size: every configuration x structured field x 2..6 records x first-only / '
-        'last-only / one-middle-only x {parsed text, built object}, %d fillings each' % LPOS_REPS[ctx.tier]]
+        'last-only / one-middle-only x {parsed text, built object}, %d fillings each' % LPOS_REPS[ctx.tier],
+        'build routes: every configuration x structured field x each of %d routes (%s), %d paragraphs each'
+        % (len(ROUTE_TEMPLATES), ' '.join(ROUTE_TEMPLATES), ROUTE_ENUM_REPS[ctx.tier])]
 
 
 def cases(ctx):
@@ -2528,6 +2625,8 @@ def route_record(deb822, names, tokens, rectype, int_size):
         return deb822.Deb822Dict(dict(pairs))
     if rectype == 'deb822dict-pairs':
         return deb822.Deb822Dict(pairs)
+    if rectype == 'deb822dict-rev':
+        return deb822.Deb822Dict(list(reversed(pairs)))
     raise ValueError('unknown record type %r' % (rectype,))
 
 
@@ -2779,6 +2878,11 @@ def route_apply(ctx, deb822, cls, env, step, case, table):
         route_read(deb822, cls, env, step, table)
     elif k == 'update-from':
         obj.update(env['srcobjs'][step[1]])
+    elif k == 'delete':
+        if step[3] == 'pop':
+            obj.pop(step[1])
+        else:
+            del obj[step[1]]
     else:
         raise ValueError('unknown route step %r' % (step,))
 
@@ -2915,6 +3019,7 @@ def run_route(ctx, deb822, cls, clsname, case):
         try:
             if k == 'new':
                 env['obj'], outcome = route_new(ctx, deb822, cls, env, step, case, table)
+                env['sibling'] = cls()
             else:
                 outcome = None
                 route_apply(ctx, deb822, cls, env, step, case, table)
@@ -2958,6 +3063,15 @@ def run_route(ctx, deb822, cls, clsname, case):
     ctx.mon('M.route')
     if setdefault_first:
         ctx.mon('M.route.setdefault')
+    # -- what went into THIS paragraph must not show in a paragraph made before it or after it
+    for which, other in (('made-before', env.get('sibling')), ('made-after', cls())):
+        leaked = [f for f in sorted(table) if f in other]
+        if leaked:
+            ctx.violation('other-paragraph-changed/empty-paragraph-%s-shows-structured-field' % which,
+                          '%s: an empty %s() %s the incrementally built one shows %r = %r'
+                          % (clsname, clsname, which.replace('-', ' '), leaked[0], other[leaked[0]]))
+            return
+        ctx.mon('M.route.others')
     if any(ch[0] == 'src' for step in case['steps'] if step[0] in ('put', 'grow')
            for ch in (step[4] if step[0] == 'put' else step[5])) or any(s.get('whole') for s in case.get('srcs', [])):
         ctx.mon('M.route.src')
